@@ -382,6 +382,8 @@ def run(ctx):
         if t.fail:
             break
         t.samples.append({"class": cname, "fields": subsets[-1]})
+    if not t.fail:
+        large_records(real, t)
     t.done()
     ctx.level = "other"
     ctx.explanation = ("PROVED from the real ASTs, for all record lists, all class tables and all keys: _multivalued.get_as_string returns - "
@@ -460,6 +462,47 @@ def check_dump(t, cls, cname, behaviour, obj, subset, model, second=False):
         t.failed("dump of the re-parsed paragraph differs", cls=cname, present=subset, dump=text, second=again)
         return True
     return bool(t.fail)
+
+
+def large_records(real, t):
+    """sizes no small example reaches: hundreds of records per field (dumps beyond 64 KiB), size tokens longer than any fixed
+    column - same statement as for the small ones"""
+    import io
+    rng = random.Random(12)
+    for cname, cls, behaviour in (("Dsc", real.Dsc, None), ("Release/apt-ftparchive", real.Release, "apt-ftparchive"),
+                                  ("Release/dak", real.Release, "dak"), ("PdiffIndex", real.PdiffIndex, None)):
+        mv = cls._multivalued_fields
+        subset = list(mv)[:3]
+        obj = cls()
+        if behaviour:
+            obj.size_field_behavior = behaviour
+        obj["Origin"] = "x"
+        model = {}
+        for n_k, k in enumerate(subset):
+            order = mv[k]
+            single = cname == "PdiffIndex" and k.endswith("-current")
+            n = 1 if single else 400
+            recs = []
+            for i in range(n):
+                # sizes of 1 to 31 digits: longer than the 16 columns of a Release file, and very different within one field
+                size = str(rng.randrange(10 ** rng.choice([0, 3, 9, 15, 16, 17, 24, 30])))
+                recs.append({x: (size if x == "size" else "%s%04d-%s" % (x[:3], i, "f" * 40)) for x in order})
+            display = "-".join(p.capitalize() for p in k.split("-"))
+            obj[display] = recs[0] if single else recs
+            model[k] = (display, order, recs, single)
+        t.case(key=("large records", cname))
+        if check_dump(t, cls, cname, behaviour, obj, subset, model):
+            return
+        try:
+            text = obj.dump()
+            fdb = io.BytesIO()
+            obj.dump(fdb)
+            if fdb.getvalue().decode("utf-8") != text:
+                t.failed("large structured fields: dump(fd) differs from dump()", cls=cname, size=len(text), binary_dump_size=len(fdb.getvalue()))
+                return
+        except Exception as e:
+            t.failed("large structured fields: dump(fd) raised %r" % (e,), cls=cname)
+            return
 
 
 def replay(ctx, data):
